@@ -15,12 +15,15 @@ def keyfn(case, res, m):
         # class = the operator whose state is built once per Stream and can therefore survive an
         # iteration (F23: accumulate); a re-iteration failure of a program without it is a different finding
         return 'reiterate:' + ('accumulate' if any(op[0] == 'accumulate' for op in case['ops']) else 'other')
+    if scen_pipeline.uses_list_exc_types(case) and any(r['end'] == 'E999:0' for r in res.get('runs', [])):
+        # F24: the run ended in a TypeError and the program hands exception classes over as a list
+        return f"{m['rule']}:exc-types-as-list"
     return f"{m['rule']}:{'partial' if m['detail'].startswith('take') else 'full'}"
 
 
 def run(chk):
     chk.audit(PROPS)
-    n = 3000 if chk.tier == 'quick' else 150000
+    n = 3000 if chk.tier == 'quick' else 100000
     nb = n // 5
     counter = {'i': 0}
 
